@@ -61,6 +61,7 @@ SortNames(S) == SelectSeq(NameOrder, LAMBDA n : n \in S)
 (* fs     : [D -> [names -> [b: Seq(value), mt, sz]]]                      *)
 (* par    : Seq over levels of Seq over positions of [k: "V"|"J", w: [D -> value]]  *)
 (***************************************************************************)
+T8(now) == now - (now % 8)        \* info times have 8 s granularity (elem.h INFO_MASK)
 NoInfo == [p |-> FALSE, t |-> 0, bad |-> FALSE, js |-> FALSE]
 ZeroVec == [d \in D |-> "Z"]
 JunkCell == [k |-> "J", w |-> ZeroVec]
@@ -268,7 +269,7 @@ ReadOutcome(M, fs, d, b) ==
     IN IF b.n \in DOMAIN fs[d] /\ SameStamp(fs[d][b.n], f) /\ b.i <= Len(fs[d][b.n].b)
        THEN [ok |-> TRUE, v |-> fs[d][b.n].b[b.i]] ELSE [ok |-> FALSE, v |-> "Z"]
 
-SyncStripe(M, fs, par, p, now, force_full) ==
+SyncStripe(M, fs, par, p, now, force_full, rlen) ==
     LET blk == Eager([d \in D |-> BlockAt(M, d, p)])
         info == InfoAt(M, p)
         rd == Eager([d \in D |-> IF HasFile(blk[d]) THEN ReadOutcome(M, fs, d, blk[d]) ELSE [ok |-> TRUE, v |-> "Z"]])
@@ -290,10 +291,15 @@ SyncStripe(M, fs, par, p, now, force_full) ==
                                             THEN [M.cf[d] EXCEPT ![blk[d].n].bl[blk[d].i].h = hash(d)] ELSE M.cf[d]]]
         \* on-the-fly repair of silent errors (sync.c:1027-1161)
         inval == {d \in D : InvalidParity(blk[d])}
-        zeroed == {d \in inval : blk[d].st = "CHG" /\ blk[d].h = "ZERO"}
+        \* sync.c:1051 tests the ZERO marker on the CHG block *after* sync.c:1017 has overwritten it with the
+        \* hash of the data just read, so no block that was read is ever treated as "was zero"
+        zeroed == {d \in inval \ good : blk[d].st = "CHG" /\ blk[d].h = "ZERO"}
         E == (inval \ zeroed) \cup silent
         buf0 == Eager([d \in D |-> IF d \in zeroed THEN "Z" ELSE rd[d].v])
-        canfix == silent # {} /\ ~err /\ Cardinality(E) <= NP /\ \A l \in Levels : p + 1 <= Len(par[l])
+        tryfix == silent # {} /\ ~err /\ Cardinality(E) <= NP
+        \* parity blocks gained by the resize of this run cannot be read back (parity.c:911): the sync stops
+        abort == tryfix /\ \E l \in Levels : p + 1 > rlen[l]
+        canfix == tryfix /\ ~abort
         L == 1..Cardinality(E)
         rec == Recovered(par, p, E, L, buf0)
         fixed == canfix /\ \A d \in silent : HashOf(rec[d], len(d)) = blk[d].h
@@ -304,14 +310,15 @@ SyncStripe(M, fs, par, p, now, force_full) ==
                                                   THEN [M1.cf[d] EXCEPT ![blk[d].n].bl[blk[d].i].st = "BLK"] ELSE M1.cf[d]],
                               !.del = [d \in D |-> IF blk[d].k = "D" THEN [M1.del[d] EXCEPT ![p + 1] = "NONE"] ELSE M1.del[d]],
                               !.info = IF needs /\ silent = {}
-                                       THEN [M1.info EXCEPT ![p + 1] = [p |-> TRUE, t |-> now, bad |-> FALSE, js |-> TRUE]]
+                                       THEN [M1.info EXCEPT ![p + 1] = [p |-> TRUE, t |-> T8(now), bad |-> FALSE, js |-> TRUE]]
                                        ELSE M1.info]
               ELSE M1
         M3 == IF silent # {} THEN [M2 EXCEPT !.info[p + 1] = [InfoAt(M2, p) EXCEPT !.bad = TRUE, !.p = TRUE]] ELSE M2
         wrote == proceed /\ needs
     IN [M |-> M3,
         par |-> IF wrote THEN [l \in Levels |-> [par[l] EXCEPT ![p + 1] = [k |-> "V", w |-> data]]] ELSE par,
-        err |-> Cardinality(readerr) + Cardinality(repchanged), silent |-> Cardinality(silent), wrote |-> wrote]
+        err |-> Cardinality(readerr) + Cardinality(repchanged), silent |-> Cardinality(silent), wrote |-> wrote,
+        abort |-> abort, M1 |-> M1]
 
 StripeEnabled(M, p, force_full) ==
     /\ \E d \in D : HasFile(BlockAt(M, d, p))
@@ -325,17 +332,23 @@ Resize(par, n) == [l \in Levels |-> [q \in 1..n |-> IF q <= Len(par[l]) THEN par
    deleted entries, the info and the parity cells of position p.  The result is therefore assembled from
    the per-stripe results, all computed from the state after the scan (no recursion: TLC evaluates
    arguments of recursive operators by name). *)
-SyncAll(M, fs, par, bm, now, ff) ==
-    LET en == {p \in 0..(bm - 1) : StripeEnabled(M, p, ff)}
-        R == Eager([p \in en |-> SyncStripe(M, fs, par, p, now, ff)])
+SyncAll(M, fs, par, bm, now, ff, rlen) ==
+    LET en0 == {p \in 0..(bm - 1) : StripeEnabled(M, p, ff)}
+        R == Eager([p \in en0 |-> SyncStripe(M, fs, par, p, now, ff, rlen)])
+        ab == {p \in en0 : R[p].abort}
+        pa == IF ab = {} THEN bm ELSE Min(ab)                 \* the sync stops at this stripe
+        en == {p \in en0 : p < pa}
+        MOf(p) == IF p = pa THEN R[p].M1 ELSE R[p].M
+        touched == {p \in en0 : p <= pa}
         cfOf(d, n) == [M.cf[d][n] EXCEPT !.bl = [i \in 1..Len(M.cf[d][n].bl) |->
-                          LET p == M.cf[d][n].bl[i].pos IN IF p \in en THEN R[p].M.cf[d][n].bl[i] ELSE M.cf[d][n].bl[i]]]
+                          LET p == M.cf[d][n].bl[i].pos IN IF p \in touched THEN MOf(p).cf[d][n].bl[i] ELSE M.cf[d][n].bl[i]]]
     IN [M |-> [cf |-> [d \in D |-> [n \in DOMAIN M.cf[d] |-> cfOf(d, n)]],
                del |-> [d \in D |-> [q \in 1..Len(M.del[d]) |-> IF (q - 1) \in en THEN R[q - 1].M.del[d][q] ELSE M.del[d][q]]],
                info |-> [q \in 1..Len(M.info) |-> IF (q - 1) \in en THEN R[q - 1].M.info[q] ELSE M.info[q]]],
         par |-> [l \in Levels |-> [q \in 1..Len(par[l]) |-> IF (q - 1) \in en THEN R[q - 1].par[l][q] ELSE par[l][q]]],
         err |-> SumSeq([p \in 1..bm |-> IF (p - 1) \in en THEN R[p - 1].err ELSE 0]),
-        silent |-> SumSeq([p \in 1..bm |-> IF (p - 1) \in en THEN R[p - 1].silent ELSE 0])]
+        silent |-> SumSeq([p \in 1..bm |-> IF (p - 1) \in en THEN R[p - 1].silent ELSE 0]),
+        aborted |-> ab # {}, ndone |-> Cardinality(en)]
 
 (* Sync: C = content on disk, fs0 = data at scan time, fs1 = data when the stripes are read.
    opts = [force_full, force_empty, force_zero, nocopy]; srcs = copy-source choice *)
@@ -347,11 +360,20 @@ SyncResult(C, fs0, fs1, par, now, opts, srcs) ==
         bm == AllocatedMax(M)
         small == ~opts.force_full /\ \E l \in Levels : Len(par[l]) < UsedMax(M)
         par1 == Resize(par, bm)
-        r == SyncAll(M, fs1, par1, bm, now, opts.force_full)
+        r == SyncAll(M, fs1, par1, bm, now, opts.force_full, [l \in Levels |-> Len(par[l])])
+        \* the state is saved before the stripes are processed when the scan or the resize changed something,
+        \* and again at the end unless --test-kill-after-sync
+        scanchg == \E d \in D : Gone(L0, fs0, d) # {} \/ Fresh(L0, fs0, d) # {} \/ Realloc(L0, fs0, d) # {}
+        resized == \E l \in Levels : Len(par[l]) # bm
+        presave == IF scanchg \/ resized THEN Normalize(M) ELSE C
+        en == {p \in 0..(bm - 1) : StripeEnabled(M, p, opts.force_full)}
     IN IF ~SrcsOK(L0, fs0, srcs, opts.nocopy) THEN [C |-> C, par |-> par, out |-> [exit |-> "bad-copy-source", err |-> 0, silent |-> 0]]
        ELSE IF refused \/ small THEN [C |-> C, par |-> par, out |-> [exit |-> "refused", err |-> 0, silent |-> 0]]
-       ELSE [C |-> Normalize(r.M), par |-> r.par,
-             out |-> [exit |-> IF r.err + r.silent = 0 THEN "ok" ELSE "error", err |-> r.err, silent |-> r.silent]]
+       ELSE [C |-> IF opts.kill_after THEN presave
+                   ELSE IF (en = {} \/ (r.aborted /\ r.ndone = 0)) /\ ~scanchg /\ ~resized THEN C ELSE Normalize(r.M),
+             par |-> r.par,
+             out |-> [exit |-> IF r.aborted THEN "abort" ELSE IF r.err + r.silent = 0 THEN "ok" ELSE "error",
+                      err |-> r.err, silent |-> r.silent]]
 
 DiffResult(C, fs, srcs) ==
     [exit |-> IF NoDifference(C, fs) /\ ~ParityInvalid(C) THEN "equal" ELSE "diff"]
@@ -395,8 +417,9 @@ CheckRead(C, fs, d, b) ==
 
 (* Returns [ok, bad (disks with a bad block), ood (bad blocks whose recovered content is not trusted),
             buf (block contents to write back), perr (parity levels found wrong), parfix (recomputed vector)] *)
-CheckStripe(C, fs, par, p, present) ==
-    LET blk == Eager([d \in D |-> BlockAt(C, d, p)])
+CheckStripe(C, fs, par, p, present0) ==
+    LET present == {l \in present0 : p + 1 <= Len(par[l])}      \* a parity file that is too short gives a read error
+        blk == Eager([d \in D |-> BlockAt(C, d, p)])
         files == {d \in D : HasFile(blk[d])}
         rd == Eager([d \in D |-> IF d \in files THEN CheckRead(C, fs, d, blk[d]) ELSE [ok |-> TRUE, v |-> "Z"]])
         lens == Eager([d \in D |-> IF d \in files THEN BlkLen(C.cf[d][blk[d].n].sz, blk[d].i) ELSE BS])
@@ -431,7 +454,7 @@ CheckStripe(C, fs, par, p, present) ==
         perr == IF ok /\ used_parity /\ valid_parity
                 THEN {l \in present : ~(ParAt(par, l, p).k = "V" /\ ParAt(par, l, p).w = pv)} ELSE {}
     IN [ok |-> ok, bad |-> bad, ood |-> IF ok THEN res.ood ELSE {}, buf |-> res.buf, perr |-> perr,
-        lost |-> IF ok /\ used_parity /\ valid_parity THEN Levels \ present ELSE {},
+        lost |-> IF ok /\ used_parity /\ valid_parity THEN Levels \ present ELSE {}, rderr |-> present0 \ present,
         pv |-> pv, blk |-> blk, lens |-> lens]
 
 (***************************************************************************)
@@ -441,6 +464,12 @@ CheckStripe(C, fs, par, p, present) ==
 (* perr (<<p,l>>), recovered (<<d,n>>), unrec (<<d,n>>), fixedpar]         *)
 (***************************************************************************)
 CheckAll(C0, fs, par, present) == LET C == WithIndex(C0) IN Eager([p \in 0..(AllocatedMax(C) - 1) |-> CheckStripe(C, fs, par, p, present)])
+
+(* a file found larger than recorded is reported once, at the first of its blocks that is processed *)
+SizeErrors(C, fs) == {<<Min({C.cf[x[1]][x[2]].bl[i].pos : i \in 1..Len(C.cf[x[1]][x[2]].bl)}), x[1]>> :
+                        x \in {y \in UNION {{<<d, n>> : n \in DOMAIN C.cf[d]} : d \in D} :
+                                  /\ Len(C.cf[y[1]][y[2]].bl) > 0 /\ y[2] \in DOMAIN fs[y[1]]
+                                  /\ fs[y[1]][y[2]].sz > C.cf[y[1]][y[2]].sz}}
 
 FileOutcome(C, fs, R, d, n) ==
     LET f == C.cf[d][n]
@@ -455,27 +484,43 @@ FileOutcome(C, fs, R, d, n) ==
     IN [bad |-> badi # {}, damaged |-> damaged, fixed |-> fixed /\ ~damaged, b |-> newb, larger |-> larger]
 
 (* sel[d] = names selected by the filters; files outside are never written *)
-FixResult(C, fs, par, present, sel) ==
-    LET R == CheckAll(C, fs, par, present)
+Unrec(n) == n \o ".unrecoverable"
+IsUnrec(n) == Len(n) > 14 /\ SubSeq(n, Len(n) - 13, Len(n)) = ".unrecoverable"
+(* the disks as fix sees them: a missing recorded file whose .unrecoverable copy exists is renamed back
+   when it is opened (handle.c:66-75) *)
+FixView(C, fs, sel) ==
+    Eager([d \in D |->
+        LET back == {n \in DOMAIN C.cf[d] : n \in sel[d] /\ Len(C.cf[d][n].bl) > 0 /\ n \notin DOMAIN fs[d] /\ Unrec(n) \in DOMAIN fs[d]}
+        IN Eager([n \in (DOMAIN fs[d] \ {Unrec(m) : m \in back}) \cup back |-> IF n \in back THEN fs[d][Unrec(n)] ELSE fs[d][n]])])
+
+FixResult(C, fs0, par, present, sel) ==
+    LET fs == FixView(C, fs0, sel)
+        R == CheckAll(C, fs, par, present)
         bm == AllocatedMax(C)
         fo == Eager([d \in D |-> Eager([n \in DOMAIN C.cf[d] |-> FileOutcome(C, fs, R, d, n)])])
         isel(d, n) == n \in sel[d]
-        unrec == {<<d, n>> \in UNION {{<<d, n>> : n \in DOMAIN C.cf[d]} : d \in D} : isel(d, n) /\ fo[d][n].damaged}
-        recov == {<<d, n>> \in UNION {{<<d, n>> : n \in DOMAIN C.cf[d]} : d \in D} :
-                      isel(d, n) /\ (fo[d][n].fixed \/ (C.cf[d][n].sz = 0 /\ n \notin DOMAIN fs[d]))}
-        keepnames(d) == DOMAIN fs[d] \ {n \in DOMAIN C.cf[d] : <<d, n>> \in unrec}
-        newnames(d) == keepnames(d) \cup {n \in DOMAIN C.cf[d] : <<d, n>> \in recov}
-        fs1 == [d \in D |-> [n \in newnames(d) |->
-                    IF <<d, n>> \in recov
+        allf == UNION {{<<d, n>> : n \in DOMAIN C.cf[d]} : d \in D}
+        unrec == {x \in allf : isel(x[1], x[2]) /\ fo[x[1]][x[2]].damaged}
+        empty0 == {x \in allf : isel(x[1], x[2]) /\ C.cf[x[1]][x[2]].sz = 0 /\ (x[2] \notin DOMAIN fs[x[1]] \/ fs[x[1]][x[2]].sz # 0)}
+        recov == {x \in allf : isel(x[1], x[2]) /\ fo[x[1]][x[2]].fixed} \cup empty0
+        names(d) == ((DOMAIN fs[d] \ {n \in DOMAIN C.cf[d] : <<d, n>> \in unrec}) \cup {n \in DOMAIN C.cf[d] : <<d, n>> \in recov})
+                    \cup {Unrec(n) : n \in {m \in DOMAIN C.cf[d] : <<d, m>> \in unrec}}
+        fs1 == [d \in D |-> [n \in names(d) |->
+                    IF IsUnrec(n) /\ \E m \in DOMAIN C.cf[d] : <<d, m>> \in unrec /\ Unrec(m) = n
+                    THEN [b |-> <<>>, mt |-> <<0, 0>>, sz |-> 0]            \* content of an .unrecoverable file is unspecified
+                    ELSE IF <<d, n>> \in recov
                     THEN [b |-> fo[d][n].b, mt |-> C.cf[d][n].mt, sz |-> C.cf[d][n].sz]
                     ELSE IF n \in DOMAIN C.cf[d] /\ isel(d, n) /\ fo[d][n].larger
                          THEN [b |-> fo[d][n].b, mt |-> fs[d][n].mt, sz |-> C.cf[d][n].sz]
                     ELSE fs[d][n]]]
-        pfix == {<<p, l>> \in (0..(bm - 1)) \X Levels : R[p].ok /\ (l \in R[p].perr \/ l \in R[p].lost)}
+        pfix == {x \in (0..(bm - 1)) \X Levels : R[x[1]].ok /\ (x[2] \in R[x[1]].perr \/ x[2] \in R[x[1]].lost)}
         par0 == Resize(par, bm)
-        par1 == [l \in Levels |-> [q \in 1..bm |-> IF <<q - 1, l>> \in pfix THEN [k |-> "V", w |-> R[q - 1].pv] ELSE par0[l][q]]]
-        derr == {<<p, d>> \in (0..(bm - 1)) \X D : d \in R[p].bad}
-        nerr == Cardinality(derr) + Cardinality({<<p, l>> \in (0..(bm - 1)) \X Levels : l \in R[p].perr})
+        \* parity files are grown to the allocated size first and cut back to the part that is valid
+        \* (present before, or written by this run) at the end (check.c:2073, parity_truncate)
+        plen(l) == IF Len(par[l]) >= bm THEN bm ELSE Max({Len(par[l])} \cup {x[1] + 1 : x \in {y \in pfix : y[2] = l}})
+        par1 == [l \in Levels |-> [q \in 1..plen(l) |-> IF <<q - 1, l>> \in pfix THEN [k |-> "V", w |-> R[q - 1].pv] ELSE par0[l][q]]]
+        derr == {x \in (0..(bm - 1)) \X D : x[2] \in R[x[1]].bad} \cup SizeErrors(C, fs)
+        nerr == Cardinality(derr) + Cardinality({x \in (0..(bm - 1)) \X Levels : x[2] \in R[x[1]].perr \cup R[x[1]].rderr})
         nunrec == Cardinality({p \in 0..(bm - 1) : ~R[p].ok \/ R[p].ood # {}})
     IN [fs |-> fs1, par |-> par1, R |-> R,
         out |-> [exit |-> IF nunrec # 0 THEN "unrecoverable" ELSE IF nerr = 0 /\ recov = {} /\ pfix = {} THEN "ok" ELSE "recovered",
@@ -484,10 +529,11 @@ FixResult(C, fs, par, present, sel) ==
 CheckResult(C, fs, par, present, audit) ==
     LET R == CheckAll(C, fs, par, IF audit THEN {} ELSE present)
         bm == AllocatedMax(C)
-        derr == {<<p, d>> \in (0..(bm - 1)) \X D : d \in R[p].bad}
-        perr == {<<p, l>> \in (0..(bm - 1)) \X Levels : l \in R[p].perr}
+        derr == {<<p, d>> \in (0..(bm - 1)) \X D : d \in R[p].bad} \cup SizeErrors(C, fs)
+        perr == {<<p, l>> \in (0..(bm - 1)) \X Levels : l \in R[p].perr \cup R[p].rderr}
         nunrec == Cardinality({p \in 0..(bm - 1) : R[p].bad # {} /\ (~R[p].ok \/ R[p].ood # {})})
-        missing0 == {<<d, n>> \in UNION {{<<d, n>> : n \in DOMAIN C.cf[d]} : d \in D} : C.cf[d][n].sz = 0 /\ n \notin DOMAIN fs[d]}
+        missing0 == {<<d, n>> \in UNION {{<<d, n>> : n \in DOMAIN C.cf[d]} : d \in D} :
+                        C.cf[d][n].sz = 0 /\ (n \notin DOMAIN fs[d] \/ fs[d][n].sz # 0)}
     IN [exit |-> IF audit THEN (IF derr = {} /\ missing0 = {} THEN "ok" ELSE "error")
                  ELSE IF nunrec # 0 THEN "unrecoverable"
                  ELSE IF derr = {} /\ perr = {} /\ missing0 = {} THEN "ok" ELSE "recoverable",
@@ -499,9 +545,8 @@ CheckResult(C, fs, par, present, audit) ==
 ScrubStripe(C, fs, par, p, now) ==
     LET blk == Eager([d \in D |-> BlockAt(C, d, p)])
         files == {d \in D : HasFile(blk[d])}
-        present(d) == blk[d].n \in DOMAIN fs[d] /\ blk[d].i <= Len(fs[d][blk[d].n].b)
-                      /\ fs[d][blk[d].n].sz = C.cf[d][blk[d].n].sz
-        tsdiff(d) == present(d) /\ fs[d][blk[d].n].mt # C.cf[d][blk[d].n].mt
+        present(d) == CheckRead(C, fs, d, blk[d]).ok
+        tsdiff(d) == blk[d].n \in DOMAIN fs[d] /\ ~SameStamp(fs[d][blk[d].n], C.cf[d][blk[d].n])
         unsynced == {d \in D : InvalidParity(blk[d])} \cup {d \in files : tsdiff(d)}
         readerr == {d \in files : ~present(d)}
         val(d) == IF d \in files /\ present(d) THEN fs[d][blk[d].n].b[blk[d].i] ELSE "Z"
@@ -510,22 +555,24 @@ ScrubStripe(C, fs, par, p, now) ==
         silentd == mism \ unsynced
         errd == readerr \cup (mism \cap unsynced)
         vec == Eager([d \in D |-> val(d)])
-        pbad == IF errd = {} /\ silentd = {} THEN {l \in Levels : ~(ParAt(par, l, p).k = "V" /\ ParAt(par, l, p).w = vec) /\ p + 1 <= Len(par[l])} ELSE {}
         short == {l \in Levels : p + 1 > Len(par[l])}
+        pbad == IF errd = {} /\ silentd = {} /\ short = {} THEN {l \in Levels : ~(ParAt(par, l, p).k = "V" /\ ParAt(par, l, p).w = vec) /\ p + 1 <= Len(par[l])} ELSE {}
         silent == silentd # {} \/ (pbad # {} /\ unsynced = {})
         err == errd # {} \/ (pbad # {} /\ unsynced # {}) \/ short # {}
         info == InfoAt(C, p)
     IN [info |-> IF silent THEN [info EXCEPT !.bad = TRUE] ELSE IF err THEN info
-                 ELSE [p |-> TRUE, t |-> now, bad |-> FALSE, js |-> FALSE],
-        derr |-> {<<p, d>> : d \in mism}, perr |-> {<<p, l>> : l \in pbad}, silent |-> silent, err |-> err]
+                 ELSE [p |-> TRUE, t |-> T8(now), bad |-> FALSE, js |-> FALSE],
+        derr |-> {<<p, d>> : d \in mism \cup readerr}, perr |-> {<<p, l>> : l \in pbad \cup short}, silent |-> silent, err |-> err]
 
 PlanSel(C, plan) == {p \in 0..(BMax(C) - 1) : InfoAt(C, p).p /\
                         (InfoAt(C, p).bad \/ plan = "full" \/ (plan = "new" /\ InfoAt(C, p).js))}
 
-ScrubResult(C0, fs, par, sel, now) ==
+ScrubResult(C0, fs, par, sel, now, present) ==
     LET C == WithIndex(C0)
         R == Eager([p \in sel |-> ScrubStripe(C, fs, par, p, now)])
-    IN [C |-> [cf |-> C0.cf, del |-> C0.del, info |-> [q \in 1..Len(C0.info) |-> IF (q - 1) \in sel THEN R[q - 1].info ELSE C0.info[q]]],
+        empty == \A q \in 1..Len(C0.info) : ~C0.info[q].p
+    IN IF empty \/ present # Levels THEN [C |-> C0, out |-> [exit |-> "none", derr |-> {}, perr |-> {}, marked |-> {}]] ELSE
+       [C |-> [cf |-> C0.cf, del |-> C0.del, info |-> [q \in 1..Len(C0.info) |-> IF (q - 1) \in sel THEN R[q - 1].info ELSE C0.info[q]]],
         out |-> [exit |-> IF \E p \in sel : R[p].silent \/ R[p].err THEN "error" ELSE "ok",
                  derr |-> UNION {R[p].derr : p \in sel}, perr |-> UNION {R[p].perr : p \in sel},
                  marked |-> {p \in sel : R[p].silent}]]
